@@ -156,6 +156,9 @@ Definition case_clauses (c : vcase) : list bool :=
   | CGraph _ _ tree o_arr _ => [ graph_ok tree o_arr ]
   | CBuilt kind _ opts batching o_cap => [ Bool.eqb o_cap (spec_cap kind opts batching) ]
   | CRouter _ pcaps sel o_cap o_dcap o_calls => [ router_ok pcaps sel o_cap o_dcap o_calls ]
+  | CRoutes _ pcaps sels o =>
+      [ (length o =? length sels)
+        && forallb (fun so => router_ok pcaps (fst so) (fst (snd so)) (spec_fan pcaps) (snd (snd so))) (combine sels o) ]
   end.
 
 Definition prop_ok (c : vcase) : bool := forallb id (case_clauses c).
